@@ -765,6 +765,11 @@ def _conc_scenarios(rng, n, gc):
             t0 = "put %s 7c7c" % B7[0] if rop == "put" else "%s %s" % (rop, B7[0])
             th = [("T0", t0), ("T1", "put %s %s" % (rng.choice(B7[2:]), "7a7a")), ("F1", "flush"), ("G1", "igc %d" % rng.randint(0, 1))]
             sched = ["T0"] + ["T1"] * 8 + ["F1"] * 12 + ["G1"] * 14
+            if rng.random() < 0.6:
+                # a second flush (of another bucket) before the cycle: the superseding list leaves the write pools too, so the retried lookup
+                # has to read it from its file
+                th += [("T2", "put %s 7d" % rng.choice(OB)), ("F2", "flush")]
+                sched = ["T0"] + ["T1"] * 8 + ["F1"] * 12 + ["T2"] * 8 + ["F2"] * 12 + ["G1"] * 14
             if rng.random() < 0.3:
                 names = [t[0] for t in th]
                 sched = ["T0"] + [rng.choice(names[1:]) for _ in range(rng.randint(10, 40))] + ["T1"] * 8 + ["F1"] * 12 + ["G1"] * 14
@@ -930,6 +935,7 @@ CHECKS["C05"] = Spec(
 CHECKS["C06"] = Spec(
     prop_file="C06.v",
     weights=None,
+    skeleton=["C06", "C05"],
     witnesses=["F15-reader-removes-current-entry", "F16-relocation-vs-writer"],
     tools=["witness", "concdrive"],
     rule="see schedule_rule",
@@ -1415,6 +1421,7 @@ CHECKS["C13"] = Spec(
     keep=("res", "img"),
     aspects=("map", "dir"),
     witnesses=["C13-freelist-exact", "F12b-writer-inside-commit-then-crash"],
+    skeleton=["C06", "C05"],      # the concurrency theorem of C13 rests on the key lock (wf_C05) and the compare-and-swap protocol (wf_C06)
     tools=["sthdrive", "witness", "concdrive"],
     extra=_c13_conc,
     nontrivial=lambda t, r: _count_ops(t, ("flush",)) >= 1 and any(((x.get("extra") or {}).get("blk_before") or "") != "" and (x.get("extra") or {}).get("blk_after") != (x.get("extra") or {}).get("blk_before") for x in r),
@@ -1470,6 +1477,7 @@ SKEL_GOALS = {
     "C12": "wf_C12 skel_Store_Flush skel_Store_flushTick",
     "C17": "wf_C17 skel_Store_Close skel_Store_run skel_primaryGC_run skel_primaryGC_close skel_MultihashPrimary_Close skel_Index_garbageCollector skel_Index_Close",
     "C05": "wf_C05 skel_Index_Put skel_Index_update skel_Index_remove skel_Index_Get skel_Index_Flush skel_MultihashPrimary_Flush skel_Store_commit skel_Store_Put skel_Store_Remove",
+    "C06": "wf_C06 skel_Store_Get skel_Store_Has skel_Store_GetSize skel_Store_Put skel_Store_Remove skel_primaryGC_reapRecords skel_primaryGC_gc",
     "C14": "wf_C14 [skel_FileCache_Open; skel_FileCache_Close; skel_FileCache_Remove; skel_FileCache_Clear; skel_FileCache_SetCacheSize; skel_FileCache_Len; skel_FileCache_Cap]",
 }
 
@@ -1632,10 +1640,11 @@ def run_check(prop, tier, seed, replay, t0):
             discharged += 1
         else:
             broken_obligations.append("theorem %s depends on: %s" % (name, a[:400]))
-    if getattr(spec, "skeleton", None):
-        sk_ok, sk_text = skeleton_obligation(spec.skeleton)
+    sk_names = getattr(spec, "skeleton", None)
+    for skn in ([sk_names] if isinstance(sk_names, str) else (sk_names or [])):
+        sk_ok, sk_text = skeleton_obligation(skn)
         obligations += 1
-        cov["regenerated_skeleton_obligation"] = sk_text
+        cov["regenerated_skeleton_obligation" + ("" if skn == ([sk_names] if isinstance(sk_names, str) else sk_names)[0] else "_" + skn)] = sk_text
         if sk_ok:
             discharged += 1
         else:
